@@ -164,7 +164,7 @@ def transformations(name, tier):
     os_ = orders(npar, tier)
     if npar > 3:
         os_ = os_[:6] if tier != "quick" else os_
-    units = [1.0, 1e-3, 7.0, 1e3]
+    units = [1.0, 1e-3, 7.0, 1e3, 1e-5, 1e5]
     out = []
     if tier == "quick":
         for pn, p in ps[1:]:
@@ -197,8 +197,8 @@ def jobs(tier, seed):
 
 def bound(tier, seed):
     if tier == "quick":
-        return "7 problems x 2 backends x {7 point permutations, all parameter orders, unit factors 1e-3 / 7 / 1e3, 2 combined transformations}, each applied to the untransformed problem; valuation %d" % (seed % 3)
-    return "10 problems x 2 backends x full product of 14 point permutations x all parameter orders (<= 6) x unit factors {1, 1e-3, 7, 1e3}; valuations 0,1,2"
+        return "7 problems x 2 backends x {7 point permutations, all parameter orders, unit factors 1e-5 / 1e-3 / 7 / 1e3 / 1e5, 2 combined transformations}, each applied to the untransformed problem; valuation %d" % (seed % 3)
+    return "10 problems x 2 backends x full product of 14 point permutations x all parameter orders (<= 6) x unit factors {1, 1e-5, 1e-3, 7, 1e3, 1e5}; valuations 0,1,2"
 
 
 def run_case(name, backend, v, perm, order, unit):
